@@ -42,14 +42,17 @@ def main():
     instrumented = [0]
     kernel_calls = [0]
 
-    def instrument(method):
-        if getattr(method, "_verif_tramp", False):
-            return
-        fn = method._evaluate
+    from verif import kernelhook
+
+    def wrap(fn, method):
+        # the kernel runs inside the interposer's C trampoline: everything it allocates is tagged
         try:
             addr = int(ffi.cast("uintptr_t", fn))
         except TypeError:
-            addr = int(ffi.cast("uintptr_t", ffi.addressof(method._lib, "evaluate")))
+            try:
+                addr = int(ffi.cast("uintptr_t", ffi.addressof(method._lib, "evaluate")))
+            except Exception:  # noqa: BLE001 - not instrumentable: counted, the parent turns zero into inconclusive
+                return fn
 
         def kernel(*args):
             n = len(args)
@@ -57,18 +60,11 @@ def main():
             kernel_calls[0] += 1
             return lib.verif_call(ctypes.c_void_p(addr), n, arr)
 
-        method._evaluate = kernel
-        method._verif_tramp = True
         instrumented[0] += 1
+        return kernel
 
-    orig = _porcelain.cachable_tensor_method
-
-    def hooked(problem, be):
-        m = orig(problem, be)
-        instrument(m)
-        return m
-
-    _porcelain.cachable_tensor_method = hooked
+    _porcelain.cachable_tensor_method.cache_clear()
+    _porcelain.TensorMethod = kernelhook.hooked_class(wrap)
     ev = _porcelain.evaluate_cffi if backend == BackendCompiler.cffi else _porcelain.evaluate_tensora
 
     B = Tensor.from_dok({(0, 1): 1.0, (1, 0): 2.0, (2, 2): 3.0}, dimensions=(3, 3), format="ds")
